@@ -3,11 +3,11 @@ package harness
 import (
 	"encoding/json"
 	"fmt"
-	"time"
 	"io"
 	"log"
 	"os"
 	"testing"
+	"time"
 
 	"github.com/go-logr/stdr"
 	"github.com/google/uuid"
